@@ -364,7 +364,6 @@ func bigTilePaths(s string, tile [4]int64) string {
 	return ""
 }
 
-
 func tileKeys(ts []tlog.Tile) [][3]int64 {
 	out := make([][3]int64, len(ts))
 	for i, t := range ts {
